@@ -28,9 +28,26 @@ Four kinds of case (plain JSON):
             with the same contents;
         (c) the dump of the re-parsed object is the identical text.
 
-  {"kind": "codec", "lines": [str, ...]}
+  Both document kinds carry two optional keys for LATER CALLS ON THE SAME OBJECTS (later_calls):
+    "edits": [["h", key, value | null] | ["p", index, "files"|"copyright"|"license"|"comment", value]
+              | ["x", index, "X-Note"|"X-Origin", value | null], ...]
+        after the checks above (the document has been dumped by then) each edit is applied to the
+        held objects - a header property assigned or set to None, a paragraph property assigned
+        (comment: or set to None), an unrestricted extra field set or deleted (index modulo the
+        number of paragraphs; for "x" 0 = header) - and after EACH edit the held objects must show
+        the edited values, and dump() must parse back in strict mode to the edited sequence of
+        paragraphs (same fields, same values) with an identical second dump: an edited document is
+        a built document like any other.
+    "perturb": "pop0"|"clear"|"append"|"reverse"|"set"   (default pop0)
+        finally the caller decodes the raw License value of every paragraph of the held and of the
+        re-parsed document with parse_multiline_as_lines, edits the returned list in place, and
+        all getters of both documents are compared with the model once more.
+
+  {"kind": "codec", "lines": [str, ...], "perturb": op}
       format_multiline_lines / parse_multiline_as_lines, format_multiline / parse_multiline and
-      License.to_str / License.from_str on the same lines.
+      License.to_str / License.from_str on the same lines; then the list returned by the decoder
+      is edited in place (op) and the same encoded text is decoded again by parse_multiline_as_lines,
+      parse_multiline and License.from_str: every decode must return the original lines.
 
   {"kind": "list", "field": "files" | "contacts" | "excluded", "items": [str, ...]}
       the list-valued properties (space separated resp. one per line) directly and through a
@@ -59,7 +76,14 @@ RULE = ("cases are copyright documents (optional header fields incl. 1..3-elemen
         "ingredients (0..6 paragraphs of both kinds in ANY order, License paragraphs before and "
         "between Files paragraphs) written out by the harness, parsed, in 1/3 of the cases extended "
         "by 1..2 paragraphs through add_*, then dumped and re-parsed; line lists "
-        "for the multi-line codec; item lists for the list-valued properties. License text lines "
+        "for the multi-line codec; item lists for the list-valued properties. Every document case "
+        "carries 0..3 edits applied after its first dump (header field removed / assigned, paragraph "
+        "comment removed / assigned, license / copyright / pattern list assigned, X- field set / "
+        "deleted; removals aimed at fields that are present), each followed by dump, strict "
+        "re-parse, comparison with the edited model (values and field names) and second dump; "
+        "every document and codec case ends with the caller editing in place (5 ways) the line "
+        "lists parse_multiline_as_lines handed out and asking the decoders / getters again. "
+        "License text lines "
         "are drawn from classes: empty, plain, indented, trailing blanks, leading '.', leading "
         "'#', field-/PGP-lookalikes, non-ASCII. Non-trivial = a document with a license text "
         "holding both an empty and an indented line, or with paragraphs of both kinds (parsed "
@@ -75,6 +99,12 @@ ASSUMPTIONS = [
     "patterns joined by one blank, one empty line between paragraphs) is a valid copyright file "
     "whose parse in strict mode yields the written values; that parse is checked (sig parsed:*), "
     "equality of the first dump with the written text is only recorded as a label",
+    "edits after a dump: the expected state is the model with the same assignment applied "
+    "(property = None or an empty list removes the field, as RestrictedField documents); extra "
+    "fields are 'X-Note' / 'X-Origin' with values in deb822 form; 'the same paragraph' is taken to "
+    "include the set of field names (case-insensitive) and the raw values of these extra fields",
+    "a list returned by parse_multiline_as_lines belongs to the caller: editing it must not "
+    "change what a later decode of the same text or a property getter returns",
     "characters are limited to str.isprintable() plus TAB (DESIGN section 6: characters on which "
     "str.splitlines splits but '\\n'-based file iteration does not are outside the domain)",
     "texts are compared as newline-joined lines: one trailing newline of a license text and "
@@ -192,7 +222,8 @@ def valid_paras(paras):
 
 def valid_doc(case):
     return (valid_header(case.get("header", {})) and valid_paras(case.get("paras")) and
-            case.get("input") in ("lines", "stringio", "noeol", "bytes"))
+            case.get("input") in ("lines", "stringio", "noeol", "bytes") and
+            valid_edits(case.get("edits", [])))
 
 
 def lic(x):
@@ -381,6 +412,7 @@ def check_doc(case):
 
     # ---- labels
     labels = set(["doc", "input:" + case["input"], "paragraphs:%d" % min(len(paras), 5)])
+    later_calls(case, doc, doc2, [objs[i] for i in order], h, [paras[i] for i in order], labels)
     kinds = [p[0] for p in paras]
     if "F" in kinds and "L" in kinds:
         labels.add("both-paragraph-kinds")
@@ -499,7 +531,44 @@ def render(h, paras):
     return "".join(out)
 
 
-def expect_sequence(doc, h, paras, where, text):
+HEADER_FIELDS = {"name": "upstream-name", "contacts": "upstream-contact", "source": "source",
+                 "comment": "comment", "license": "license", "copyright": "copyright",
+                 "excluded": "files-excluded"}
+
+
+def expect_fields(o, names, extra, where, what):
+    """The paragraph holds exactly the fields of the model (names compared case-insensitively) and
+    the extra (unrestricted, 'X-...') fields have the raw values they were given."""
+    names = set(names) | set(n.lower() for n in extra)
+    got = set(k.lower() for k in o)
+    if got != names:
+        raise Violation(where + ":field-names", "%s: fields %r, the built paragraph has %r"
+                        % (what, sorted(got), sorted(names)))
+    for n in sorted(extra):
+        if o[n] != extra[n]:
+            raise Violation(where + ":extra-field", "%s: %s is %r, set to %r" % (what, n, o[n], extra[n]))
+
+
+def header_names(h):
+    return ["format"] + [HEADER_FIELDS[k] for k in h if not (k in ("contacts", "excluded") and not h[k])]
+
+
+def para_names(p):
+    return (["files", "copyright", "license"] if p[0] == "F" else ["license"]) + \
+        (["comment"] if p[-1] is not None else [])
+
+
+def expect_sequence(doc, h, paras, where, text, extras=None):
+    got = _expect_sequence(doc, h, paras, where, text)
+    what = short(text, 300)
+    expect_fields(got[0], header_names(h), extras[0] if extras else {}, where, "header of " + what)
+    for k, p in enumerate(paras):
+        expect_fields(got[k + 1], para_names(p), extras[k + 1] if extras else {}, where,
+                      "paragraph %d of %s" % (k + 1, what))
+    return got
+
+
+def _expect_sequence(doc, h, paras, where, text):
     got = list(doc.all_paragraphs())
     if len(got) != len(paras) + 1:
         raise Violation(where + ":paragraph-count", "%d paragraphs expected, %d found; text %s"
@@ -561,6 +630,7 @@ def check_parsed(case):
 
     labels = set(["parsed-doc", "input:" + form, "paragraphs:%d" % min(len(allp), 5),
                   "parsed-doc:added-%d" % len(more)])
+    later_calls(case, doc, doc2, [objs[i] for i in order], h, expected, labels)
     kinds = [p[0] for p in paras]
     interleaved = "F" in kinds and "L" in kinds[:len(kinds) - 1 - kinds[::-1].index("F")]
     if interleaved:
@@ -576,6 +646,176 @@ def check_parsed(case):
     if any(ord(ch) > 127 for ch in text):
         labels.add("non-ascii")
     return (interleaved or rich, sorted(labels))
+
+
+# ------------------------------------------------------------------------------------------
+# the same document object again: edited after it has been dumped, then dumped once more;
+# lists the library handed out edited in place by the caller, then the getters asked once more
+
+XNAMES = ("X-Note", "X-Origin")
+PERTURB_OPS = ("pop0", "clear", "append", "reverse", "set")
+
+
+def valid_edits(edits):
+    if not isinstance(edits, list):
+        return False
+    for e in edits:
+        if not isinstance(e, list) or not e:
+            return False
+        if e[0] == "h" and len(e) == 3:
+            k, v = e[1], e[2]
+            if k not in HEADER_FIELDS or not (v is None or valid_header({k: v})):
+                return False
+        elif e[0] == "p" and len(e) == 4:
+            a, v = e[2], e[3]
+            if not isinstance(e[1], int):
+                return False
+            ok = (a == "files" and is_pattern_list(v)) or (a == "copyright" and is_value(v)) or \
+                (a == "license" and is_license(v)) or (a == "comment" and (v is None or is_value(v)))
+            if not ok:
+                return False
+        elif e[0] == "x" and len(e) == 4:
+            if not isinstance(e[1], int) or e[2] not in XNAMES or not (e[3] is None or is_value(e[3])):
+                return False
+        else:
+            return False
+    return True
+
+
+def apply_edit(objs, h, paras, extras, e):
+    """One edit on the held objects (objs[0] = header) and on the model; the label of the edit,
+    or None when it is not applicable to this document."""
+    if e[0] == "h":
+        k, v = e[1], e[2]
+        attr = {"name": "upstream_name", "contacts": "upstream_contact",
+                "excluded": "files_excluded"}.get(k, k)
+        was = k in h
+        if v is None:
+            setattr(objs[0], attr, None)
+            h.pop(k, None)
+            return "edit:header-field-removed" if was else "edit:absent-header-field-set-to-None"
+        setattr(objs[0], attr, lic(v) if k == "license" else list(v) if isinstance(v, list) else v)
+        h[k] = v
+        return "edit:header-field-replaced" if was else "edit:header-field-added"
+    if e[0] == "p":
+        if not paras:
+            return None
+        i = e[1] % len(paras)
+        o, p, a, v = objs[i + 1], paras[i], e[2], e[3]
+        if a in ("files", "copyright") and p[0] != "F":
+            return None
+        if a == "files":
+            o.files = list(v)
+            p[1] = v
+        elif a == "copyright":
+            o.copyright = v
+            p[2] = v
+        elif a == "license":
+            o.license = lic(v)
+            p[3 if p[0] == "F" else 1] = v
+        else:
+            was = p[-1] is not None
+            o.comment = v
+            p[-1] = v
+            if v is None:
+                return "edit:paragraph-comment-removed" if was else "edit:absent-comment-set-to-None"
+        return "edit:paragraph-%s-assigned" % a
+    i = e[1] % len(objs)
+    o, x, name, v = objs[i], extras[i], e[2], e[3]
+    if v is None:
+        if name not in x:
+            return None
+        del o[name]
+        del x[name]
+        return "edit:extra-field-deleted"
+    o[name] = v
+    x[name] = v
+    return "edit:extra-field-set"
+
+
+def perturb(lst, op):
+    """The caller edits, in place, a list the library handed out."""
+    if not isinstance(lst, list):
+        return False
+    if op == "clear":
+        del lst[:]
+    elif op == "append":
+        lst.append("appended by the caller")
+    elif op == "reverse" and len(lst) > 1:
+        lst.reverse()
+        lst.append("reversed by the caller")
+    elif op == "set" and lst:
+        lst[-1] = "set by the caller"
+    elif lst:
+        lst.pop(0)
+    else:
+        lst.append("appended by the caller")
+    return True
+
+
+def perturb_op(case):
+    op = case.get("perturb")
+    return op if op in PERTURB_OPS else "pop0"
+
+
+def dump_round(doc, h, paras, extras, form, where):
+    """dump() of the held document parses back to the model's paragraphs; the dump of the
+    re-parsed document is the identical text.  Returns the re-parsed document."""
+    text = doc.dump()
+    if not isinstance(text, str):
+        raise Violation("dump-not-text", "dump() returned %r" % (text,))
+    buf = io.StringIO()
+    doc.dump(f=buf)
+    if buf.getvalue() != text:
+        raise Violation("dump-to-file-differs", "dump(f) wrote %s, dump() returned %s"
+                        % (short(buf.getvalue(), 200), short(text, 200)))
+    doc2 = reparse(text, form)
+    expect_sequence(doc2, h, paras, where + "-reparsed", text, extras)
+    text2 = doc2.dump()
+    if text2 != text:
+        raise Violation("second-dump-differs", "dump %s, dump of the re-parsed document %s"
+                        % (short(text, 300), short(text2, 300)))
+    return doc2, text
+
+
+def later_calls(case, doc, doc2, objs, h, paras, labels):
+    """doc: the held document, already dumped; doc2: the document read back from that dump;
+    objs/paras: its paragraph objects / their model, in held order.
+
+    (1) each edit of case["edits"] is applied to the held objects (a property assigned or set to
+        None, an unrestricted 'X-' field set or deleted); after each one the objects must show the
+        edited values and the document must dump / re-parse / dump as any built document does;
+    (2) for every License field of both documents the caller decodes the raw value with
+        parse_multiline_as_lines and edits the list it got in place; all getters must still
+        return what they returned before."""
+    h = dict(h)
+    paras = [list(p) for p in paras]
+    objs = [doc.header] + list(objs)
+    extras = [{} for _ in objs]
+    form = case["input"]
+    for e in case.get("edits", []):
+        lab = apply_edit(objs, h, paras, extras, e)
+        if lab is None:
+            labels.add("edit:not-applicable-skipped")
+            continue
+        labels.add(lab)
+        got = expect_sequence(doc, h, paras, "edited", "the edited document (%s)" % lab, extras)
+        if any(a is not b for a, b in zip(got, objs)):
+            raise Violation("edited:paragraph-sequence", "an edit (%s) replaced a paragraph object" % lab)
+        doc2, _ = dump_round(doc, h, paras, extras, form, "edited")
+        labels.add("dumped-again-after-edit")
+
+    op = perturb_op(case)
+    n = 0
+    for d in (doc2, doc):
+        for k, o in enumerate(d.all_paragraphs()):
+            if k == 0 and "license" not in h:
+                continue
+            n += perturb(C.parse_multiline_as_lines(o["License"]), op)
+    if n:
+        labels.add("decoded-license-lines-edited-by-caller:" + op)
+        expect_sequence(doc2, h, paras, "after-caller-edited-decoded-lines(re-parsed-document)", "", extras)
+        expect_sequence(doc, h, paras, "after-caller-edited-decoded-lines(held-document)", "", extras)
 
 
 # ------------------------------------------------------------------------------------------
@@ -624,6 +864,26 @@ def check_codec(case):
         l1 = C.License.from_str(s)
         if l1 is None or l1.synopsis != L[0] or not same_text(l1.text, "\n".join(L[1:])):
             raise Violation("codec:license-not-restored", "%r -> %r -> %r" % (l0, s, l1))
+
+    # the caller edits the list it was handed in place, then the same text is decoded again
+    # (the law holds for every decode of an encoded text, not only for the first one)
+    op = perturb_op(case)
+    if perturb(dec, op):
+        labels.add("codec:decoded-list-edited-by-caller:" + op)
+        again = C.parse_multiline_as_lines(enc)
+        if "\n".join(again) != joined:
+            raise Violation("codec:lines-not-restored-by-a-later-decode",
+                            "%r -> %r -> %r after the caller edited (%s) the list of the first decode"
+                            % (L, enc, again, op))
+        again_s = C.parse_multiline(enc)
+        if again_s != joined:
+            raise Violation("codec:string-not-restored-by-a-later-decode",
+                            "%r -> %r -> %r after the caller edited (%s) a decoded list" % (L, enc, again_s, op))
+        if L:
+            l2 = C.License.from_str(enc)
+            if l2 is None or l2.synopsis != L[0] or l2.text != "\n".join(L[1:]):
+                raise Violation("codec:license-not-restored-by-a-later-decode",
+                                "%r -> %r -> %r after the caller edited (%s) a decoded list" % (L, enc, l2, op))
     nontrivial = "" in L[1:] and any(l[:1] in (" ", "\t", ".") for l in L[1:])
     return (nontrivial, sorted(labels))
 
@@ -803,24 +1063,97 @@ files_para = st.builds(lambda f, c, l, m: ["F", f, c, l, m],
 license_para = st.builds(lambda l, m: ["L", l, m], gen_license(), st.one_of(st.none(), st.none(), gen_value(1)))
 
 
+HEADER_STRATS = {"name": core, "contacts": st.lists(item, min_size=0, max_size=3),
+                 "source": gen_value(1), "comment": gen_value(2), "license": gen_license(3),
+                 "copyright": gen_value(2), "excluded": st.lists(item, min_size=0, max_size=3)}
+perturb_op_s = st.sampled_from(list(PERTURB_OPS))
+
+
+def draw_edits(draw, h, paras):
+    """0..3 edits of a document that holds header h and paragraphs paras (held order is not
+    needed: indices are taken modulo).  Removals are aimed at what is present - fields of the
+    header, comments, extra fields set by an earlier edit."""
+    present = [k for k in HEADER_FIELDS if k in h]
+    commented = [i for i, p in enumerate(paras) if p[-1] is not None]
+    xs = []
+    edits = []
+    for _ in range(draw(st.sampled_from([1, 2, 0, 3, 1, 2]))):
+        t = draw(st.sampled_from(["h-remove", "x-set", "p-comment-remove", "p-assign", "h-set",
+                                  "x-del", "x-del", "h-remove", "p-comment-remove"]))
+        if t == "x-del" and not xs:
+            t = "x-set"
+        if t == "p-comment-remove" and not commented:
+            t = "p-comment-set" if paras else "h-remove"
+        if t == "p-assign" and not paras:
+            t = "h-set"
+        if t == "h-remove" and not present:
+            t = "h-set"
+        if t == "h-remove":
+            k = draw(st.sampled_from(present))
+            present.remove(k)
+            edits.append(["h", k, None])
+        elif t == "h-set":
+            k = draw(st.sampled_from(sorted(HEADER_FIELDS)))
+            edits.append(["h", k, draw(HEADER_STRATS[k])])
+            if k not in present:
+                present.append(k)
+        elif t == "p-comment-remove":
+            i = draw(st.sampled_from(commented))
+            commented.remove(i)
+            edits.append(["p", i, "comment", None])
+        elif t == "p-comment-set":
+            i = draw(st.integers(0, len(paras) - 1))
+            edits.append(["p", i, "comment", draw(gen_value(1))])
+            if i not in commented:
+                commented.append(i)
+        elif t == "p-assign":
+            i = draw(st.integers(0, len(paras) - 1))
+            a = draw(st.sampled_from(["license", "copyright", "files", "license"]))
+            if paras[i][0] != "F":
+                a = "license"
+            edits.append(["p", i, a, draw({"license": gen_license(3), "copyright": gen_value(1),
+                                           "files": st.lists(pattern, min_size=1, max_size=3)}[a])])
+        elif t == "x-set":
+            i = draw(st.integers(0, len(paras)))
+            name = draw(st.sampled_from(XNAMES))
+            edits.append(["x", i, name, draw(gen_value(1))])
+            if (i, name) not in xs:
+                xs.append((i, name))
+        else:
+            i, name = draw(st.sampled_from(xs))
+            xs.remove((i, name))
+            edits.append(["x", i, name, None])
+    return edits
+
+
 @st.composite
 def gen_doc(draw):
-    return {"kind": "doc",
+    case = {"kind": "doc",
             "input": draw(st.sampled_from(["lines", "stringio", "noeol", "bytes"])),
             "header": draw(gen_header()),
             "paras": [draw(st.one_of(files_para, files_para, license_para))
                       for _ in range(draw(st.sampled_from([2, 1, 3, 0, 1, 2, 4, 5, 3])))]}
+    # the held order of a built document: Files paragraphs first (add_files_paragraph)
+    held = [case["paras"][i] for i in held_order([], [p[0] for p in case["paras"]])]
+    case["edits"] = draw_edits(draw, case["header"], held)
+    case["perturb"] = draw(perturb_op_s)
+    return case
 
 
 @st.composite
 def gen_parsed(draw):
     """A document to be written out and parsed: paragraphs of both kinds in any order."""
     para = st.one_of(files_para, license_para)
-    return {"kind": "parsed",
+    case = {"kind": "parsed",
             "input": draw(st.sampled_from(["lines", "stringio", "noeol", "bytes"])),
             "header": draw(gen_header()),
             "paras": [draw(para) for _ in range(draw(st.sampled_from([3, 2, 4, 1, 0, 5, 6, 2, 3])))],
             "more": [draw(para) for _ in range(draw(st.sampled_from([0, 0, 1, 2, 0, 0])))]}
+    allp = case["paras"] + case["more"]
+    held = [allp[i] for i in held_order([p[0] for p in case["paras"]], [p[0] for p in case["more"]])]
+    case["edits"] = draw_edits(draw, case["header"], held)
+    case["perturb"] = draw(perturb_op_s)
+    return case
 
 
 codec_first = st.one_of(core, st.just(""), st.sampled_from([" ", ".", "\t", " x", "x "]))
@@ -839,7 +1172,7 @@ def gen_codec(draw):
     elif k == 2:         # one line for which the property promises nothing
         i = draw(st.integers(1, len(lines)))
         lines.insert(i, draw(st.sampled_from([" ", ".", "\t", "  "])))
-    return {"kind": "codec", "lines": lines}
+    return {"kind": "codec", "lines": lines, "perturb": draw(perturb_op_s)}
 
 bad_item = st.sampled_from(["", " ", "a b", "a\nb", "\t", "a\n", "\na", " a", "a ", "a\tb", "\n"])
 gen_list = st.one_of(
